@@ -174,7 +174,13 @@ pub mod mpsc {
     impl<T> Sender<T> {
         // SinkExt::send on a bounded channel: completes only when the receiving router makes room (waits for a peer)
         #[verifier::external_body] pub async fn send(&mut self, item: T) -> (r: Result<(), SendError>) { unimplemented!() }
-        #[verifier::external_body] pub fn close_channel(&mut self) { unimplemented!() }
+        // closes the channel for every sender: the receiver's stream ends once the queue is drained, and the parked
+        // receiver task is woken
+        pub uninterp spec fn chan_closed(&self) -> bool;
+        #[verifier::external_body] pub fn close_channel(&mut self) ensures final(self).chan_closed() { unimplemented!() }
+        // only drops THIS handle: the channel stays open while any clone is alive
+        #[verifier::external_body] pub fn disconnect(&mut self) { unimplemented!() }
+        #[verifier::external_body] pub fn is_closed(&self) -> (r: bool) { unimplemented!() }
     }
     impl<T> Clone for Sender<T> { #[verifier::external_body] fn clone(&self) -> (r: Self) { unimplemented!() } }
     #[verifier::external_body] pub fn channel<T: Carried>(buffer: usize) -> (r: (Sender<T>, Receiver<T>)) ensures r.1.budget() == 0, !r.1.closed() { unimplemented!() }
